@@ -209,7 +209,7 @@ func guardFacts(pkgs map[string]*parsed) (map[string]bool, []string) {
 
 func emitFacts(pkgs map[string]*parsed) string {
 	var sb strings.Builder
-	sb.WriteString("import GldapModel.Gldap.Core\nimport GldapModel.Generated.Consts\nimport GldapModel.Runtime.Writer\nimport GldapModel.Runtime.Server\nimport GldapModel.Runtime.ConnLoop\n/-! GENERATED by /verif/go/extract from /repo - do not edit. -/\nnamespace Gldap.Generated\n\n")
+	sb.WriteString("import GldapModel.Gldap.Core\nimport GldapModel.Generated.Consts\nimport GldapModel.Runtime.Writer\nimport GldapModel.Runtime.Server\nimport GldapModel.Runtime.ConnLoop\nimport GldapModel.Runtime.TlsGate\n/-! GENERATED by /verif/go/extract from /repo - do not edit. -/\nnamespace Gldap.Generated\n\n")
 	flags, notes := guardFacts(pkgs)
 	for _, n := range notes {
 		sb.WriteString("-- " + n + "\n")
